@@ -5,7 +5,7 @@
 (* instruction is a record `i` with k = its family and the operands the    *)
 (* encoding-specific pseudocode derives (Decode.tla).                      *)
 (***************************************************************************)
-EXTENDS Mem
+EXTENDS Mem, PSR
 
 -----------------------------------------------------------------------------
 (* PC writes (A2.3.1) *)
@@ -15,6 +15,7 @@ SelectThumb(x) == [x EXCEPT !.s.cpsr = SetBitW(SetBitW(@, 24, 0), 5, 1)]
 BranchWritePC(x, a) ==
   IF IsARM(x.s.cpsr)
   THEN BranchTo(UnpredIf(x, x.s.cfg.arch < 6 /\ Slice(a, 1, 0) # 0), WAnd(a, <<MM, MM - 3>>))
+  ELSE IF ISet(x.s.cpsr) = 2 THEN BranchTo(x, WAnd(a, <<MM, MM - 3>>))      \* Jazelle state, JazelleAcceptsExecution() = FALSE
   ELSE BranchTo(x, WAnd(a, <<MM, MM - 1>>))
 BXWritePC(x, a) ==
   IF Bit(a, 0) = 1 THEN BranchTo(SelectThumb(x), WAnd(a, <<MM, MM - 1>>))
@@ -225,6 +226,117 @@ ExecSTM(x, i) ==
       x1   == StmLoop(x, i, 0, StartAddr(base, i.am, cnt), s, Mode(s))
   IN IF ~Ok(x1) THEN x1
      ELSE IF i.wback THEN RsetX(x1, i.n, FinalBase(base, i.am, cnt)) ELSE x1
+
+-----------------------------------------------------------------------------
+(* system instructions (MSR, MRS, CPS, SETEND, hints, exception returns, SRS/RFE, SVC/SMC) *)
+\* i = [k |-> "msr", spsr, mask, src = [t |-> "aimm", imm12] | [t |-> "reg", n]]
+ExecMSR(x, i) ==
+  LET s == x.s
+      v == IF i.src.t = "reg" THEN Rget(s, i.src.n) ELSE ARMExpandImm(i.src.imm12)
+  IN IF i.spsr THEN LET r == SPSRWriteByInstr(s, v, i.mask) IN UnpredIf(WithS(x, r.s), r.unp)
+     ELSE LET r == CPSRWriteByInstr(s, v, i.mask, FALSE)
+          IN UnpredIf(WithS(x, r.s), r.unp \/ (PM(r.s.cpsr) = HYP /\ PJ(r.s.cpsr) = 1 /\ PT(r.s.cpsr) = 1))
+\* MRS: CPSR AND 0xF8FF03DF; in User mode the non-APSR bits are UNKNOWN
+ExecMRS(x, i) ==
+  LET s == x.s IN
+  IF i.spsr THEN (IF CurrentModeIsUserOrSystem(s) THEN Unpred(x) ELSE RsetX(x, i.d, SPSRget(s)))
+  ELSE LET x1 == RsetX(x, i.d, WAnd(s.cpsr, <<63743, 991>>))
+       IN IF Mode(s) = USR THEN [x1 EXCEPT !.dcR = @ \cup {LookUpRName(i.d, USR)}] ELSE x1
+\* CPS: i = [enable, disable, a, i_, f, changemode, mode]
+ExecCPS(x, i) ==
+  LET s == x.s IN
+  IF ~CurrentModeIsNotUser(s) THEN x
+  ELSE LET c0 == s.cpsr
+           setb(c, bit, sel) == IF sel THEN (IF i.enable THEN SetBitW(c, bit, 0) ELSE IF i.disable THEN SetBitW(c, bit, 1) ELSE c) ELSE c
+           c1 == setb(setb(setb(c0, 8, i.a), 7, i.i_), 6, i.f)
+           c2 == IF i.changemode THEN SetM(c1, i.mode) ELSE c1
+           r  == CPSRWriteByInstr(s, c2, 15, FALSE)
+       IN UnpredIf(WithS(x, r.s), r.unp)
+ExecSETEND(x, i) == [x EXCEPT !.s.cpsr = SetBitW(@, 9, i.e)]
+\* hints: NOP, WFE, WFI change only the event / wait state; YIELD, SEV, DBG are mock hooks in the emulator
+ExecHint(x, i) ==
+  LET s == x.s  trapNS == s.cfg.virt /\ (~IsSecure(s)) /\ Mode(s) # HYP IN
+  CASE i.h = "NOP" -> x
+    [] i.h = "WFE" -> IF s.ev.evreg = 1 THEN [x EXCEPT !.s.ev.evreg = 0]
+                      ELSE IF trapNS /\ Bit(s.sys.HCR, 14) = 1 THEN NotImpl(x, "unmodelled:hyp-trap-wfe")
+                      ELSE [x EXCEPT !.s.ev.wfe = 1]
+    [] i.h = "WFI" -> IF trapNS /\ Bit(s.sys.HCR, 13) = 1 THEN NotImpl(x, "unmodelled:hyp-trap-wfi")
+                      ELSE [x EXCEPT !.s.ev.wfi = 1]
+    [] i.h = "YIELD" -> NotImpl(x, "hint_yield")
+    [] i.h = "SEV" -> NotImpl(x, "send_event")
+    [] OTHER -> NotImpl(x, "hint:" \o i.h)
+
+\* exception return by data-processing instruction (SUBS PC, LR and related): i = [op, n, o2, thumb]
+ExcReturnTail(x, target, newcpsr) ==
+  LET r == CPSRWriteByInstr(x.s, newcpsr, 15, TRUE)
+      x1 == UnpredIf(WithS(x, r.s), r.unp \/ (PM(r.s.cpsr) = HYP /\ PJ(r.s.cpsr) = 1 /\ PT(r.s.cpsr) = 1))
+  IN BranchWritePC(x1, target)
+ExecExcRetDP(x, i) ==
+  LET s == x.s IN
+  IF Mode(s) = HYP THEN (IF i.eret THEN ExcReturnTail(x, s.elr, SPSRget(s)) ELSE Raise(x, "undef"))
+  ELSE IF CurrentModeIsUserOrSystem(s) THEN Unpred(x)
+  ELSE LET o  == Operand2(x, i.o2)
+           rn == IF i.op \in {"MOV", "MVN"} THEN Zero ELSE Rget(s, i.n)
+           r  == DPCompute(i.op, rn, o, CFlag(x))
+       IN ExcReturnTail(x, r[1], SPSRget(s))
+\* RFE: i = [n, inc, wordhigher, wback]
+ExecRFE(x, i) ==
+  LET s == x.s IN
+  IF Mode(s) = HYP THEN Raise(x, "undef")
+  ELSE IF ~CurrentModeIsNotUser(s) THEN Unpred(x)
+  ELSE LET base == Rget(s, i.n)
+           a0 == IF i.inc THEN base ELSE AddInt(base, -8)
+           a  == IF i.wordhigher THEN AddInt(a0, 4) ELSE a0
+           r1 == MemA(x, a, 4)
+           r2 == MemA(r1.x, AddInt(a, 4), 4)
+       IN IF ~Ok(r2.x) THEN r2.x
+          ELSE LET x1 == IF i.wback THEN RsetX(r2.x, i.n, IF i.inc THEN AddInt(base, 8) ELSE AddInt(base, -8)) ELSE r2.x
+               IN ExcReturnTail(x1, r1.v, r2.v)
+\* SRS: store LR and SPSR of the current mode on the stack of mode i.mode
+ExecSRS(x, i) ==
+  LET s == x.s IN
+  IF Mode(s) = HYP THEN Raise(x, "undef")
+  ELSE IF CurrentModeIsUserOrSystem(s) \/ BadMode(s.cfg, i.mode) \/ i.mode = HYP \/
+          (i.mode = MON /\ ~IsSecure(s)) \/ (i.mode = FIQ /\ (~IsSecure(s)) /\ NSACR_RFR(s) = 1)
+       THEN Unpred(x)
+  ELSE LET base == Rmode(s, 13, i.mode)
+           a0 == IF i.inc THEN base ELSE AddInt(base, -8)
+           a  == IF i.wordhigher THEN AddInt(a0, 4) ELSE a0
+           x1 == MemASet(x, a, 4, Rget(s, 14))
+           x2 == MemASet(x1, AddInt(a, 4), 4, SPSRget(s))
+       IN IF ~Ok(x2) THEN x2
+          ELSE IF i.wback THEN [x2 EXCEPT !.s = SetRmode(@, 13, i.mode, IF i.inc THEN AddInt(base, 8) ELSE AddInt(base, -8))]
+          ELSE x2
+\* LDM (exception return) and LDM / STM (user registers): i = [n, regs, wback, am, kind]
+ExecLDMx(x, i) ==
+  LET s == x.s  cnt == RegCount(i.regs)  base == Rget(s, i.n) IN
+  IF Mode(s) = HYP THEN Raise(x, "undef")
+  ELSE IF CurrentModeIsUserOrSystem(s) THEN Unpred(x)
+  ELSE IF i.kind = "user"
+       THEN LdmLoop(x, i.regs, 0, StartAddr(base, i.am, cnt), USR).x
+       ELSE LET cnt1 == cnt + 1                                  \* i.regs holds R0-R14; the PC is transferred as well
+                l == LdmLoop(x, i.regs, 0, StartAddr(base, i.am, cnt1), Mode(s))
+            IN IF ~Ok(l.x) THEN l.x
+               ELSE LET pcr == MemA(l.x, l.addr, 4) IN
+                    IF ~Ok(pcr.x) THEN pcr.x
+                    ELSE LET inlist == RegBit(i.regs, i.n) = 1
+                             x1 == IF i.wback /\ ~inlist THEN RsetX(pcr.x, i.n, FinalBase(base, i.am, cnt1))
+                                   ELSE IF i.wback /\ inlist THEN [pcr.x EXCEPT !.dcR = @ \cup {LookUpRName(i.n, Mode(s))}]
+                                   ELSE pcr.x
+                         IN ExcReturnTail(x1, pcr.v, SPSRget(s))
+ExecSTMuser(x, i) ==
+  LET s == x.s  cnt == RegCount(i.regs)  base == Rget(s, i.n) IN
+  IF Mode(s) = HYP THEN Raise(x, "undef")
+  ELSE IF CurrentModeIsUserOrSystem(s) THEN Unpred(x)
+  ELSE StmLoop(x, [i EXCEPT !.wback = FALSE], 0, StartAddr(base, i.am, cnt), s, USR)
+\* SMC
+ExecSMC(x, i) ==
+  LET s == x.s IN
+  IF s.cfg.sec /\ CurrentModeIsNotUser(s)
+  THEN IF s.cfg.virt /\ (~IsSecure(s)) /\ Bit(s.sys.HCR, 19) = 1 THEN NotImpl(x, "unmodelled:hyp-trap-smc")
+       ELSE IF Bit(s.sys.SCR, 7) = 1 THEN (IF IsSecure(s) THEN Unpred(x) ELSE Raise(x, "undef"))   \* SCR.SCD
+       ELSE Raise(x, "smc")
+  ELSE Raise(x, "undef")
 
 ExecIT(x, i) == [x EXCEPT !.s.cpsr = SetIT(@, i.fc * 16 + i.mask)]
 =============================================================================
